@@ -114,6 +114,20 @@ Theorem C06_excess_pos_dec_sound : forall (fl : list (edge * Z)) (D : list (list
 Proof. exact excess_pos_dec_sound. Qed.
 Print Assumptions C06_excess_pos_dec_sound.
 
+(* inexact flows: positive worst-case excess (lower bound of the first edge minus the upper bounds of the leaks)
+   => the path is contained in a positive-weight path of every decomposition of EVERY flow inside the intervals *)
+Theorem C06_inexact_excess_flow_safe : forall (G : list edge) (lb ub f : edge -> Z) (D : list (list node * Z)),
+  (forall e, (lb e <= f e)%Z) -> (forall e, (f e <= ub e)%Z) ->
+  (forall pw, In pw D -> (0 <= snd pw)%Z) ->
+  (forall pw, In pw D -> incl (pairs (fst pw)) G) ->
+  (forall pw x, In pw D -> ~ In (last (fst pw) 0%N, x) G) ->
+  (forall e, In e G -> Wt D (hasb e) = f e) ->
+  forall (u0 u1 : node) (r : list node),
+  incl (pairs (u0 :: u1 :: r)) G -> (0 < inexact_excess G lb ub (u0 :: u1 :: r))%Z ->
+  exists pw, In pw D /\ (0 < snd pw)%Z /\ infix (u0 :: u1 :: r) (fst pw).
+Proof. exact inexact_excess_flow_safe. Qed.
+Print Assumptions C06_inexact_excess_flow_safe.
+
 (* ---- C05: fixing safe, pairwise incompatible sequences to layers; zero fixing (abstract in route/sequence) ---- *)
 Theorem C06_fix_assign_layers : forall (route sq : Type) (cont : route -> sq -> Prop) (ss : list sq) (sol : list route),
   incompat route sq cont ss ->
@@ -202,4 +216,13 @@ Example C06_nonvacuous_excess :
   excess_of fl [0;1;3;4;5]%N = 2%Z /\ excess_pos_dec fl [0;1;3;4;5]%N = true /\
   excess_of f2 [0;2;3]%N = 0%Z /\ excess_pos_dec f2 [0;2;3]%N = false /\ excess_pos_dec f2 [0;2]%N = true /\
   excess_pos_dec f2 [0;3]%N = false.
+Proof. vm_compute. repeat split; reflexivity. Qed.
+
+(* intervals: s->a [6,6], a->b [1,5], a->x [1,5], r->b [3,3], b->c [1,4], b->y [1,2], c->t [1,4]  (s=0 a=1 b=2 x=3 r=4 c=5 y=6 t=7):
+   the window a b c t has worst-case excess 1 - 2 = -1 and must not be reported, s a b has 6 - 5 = 1 *)
+Example C06_nonvacuous_inexact :
+  let bl : list (edge * (Z * Z)) := [((0,1)%N,(6,6)%Z);((1,2)%N,(1,5)%Z);((1,3)%N,(1,5)%Z);((4,2)%N,(3,3)%Z);
+                                     ((2,5)%N,(1,4)%Z);((2,6)%N,(1,2)%Z);((5,7)%N,(1,4)%Z)] in
+  inexact_excess_of bl [1;2;5;7]%N = (-1)%Z /\ inexact_pos_dec bl [1;2;5;7]%N = false /\
+  inexact_excess_of bl [0;1;2]%N = 1%Z /\ inexact_pos_dec bl [0;1;2]%N = true.
 Proof. vm_compute. repeat split; reflexivity. Qed.
